@@ -289,6 +289,12 @@ class Ctx:
             # build dependencies first (so Props file can be compiled with captured output)
             dep_targets = [d[:-2] + ".vo" for d in deps if d != props] + list(extra_targets)
             rc, out = make(dep_targets) if dep_targets else (0, "")
+            if rc == 0:
+                # executable models imported only by correspondence files (not by the Props file): keep them fresh;
+                # a failure here surfaces later as `correspondence:*:model-evaluates`
+                models = sorted(os.path.relpath(os.path.join(r, n), COQ)[:-2] + ".vo"
+                                for r, _, ns in os.walk(os.path.join(COQ, "Model")) for n in ns if n.endswith(".v"))
+                sh("timeout 900 make -k -j16 %s" % " ".join(models), cwd=COQ, timeout=930)
             geneq = []
             for d in deps:
                 if d.startswith("Proofs/"):
